@@ -9,22 +9,49 @@ TRUSTED = ("testing/synctest quiescence (synctest.Wait) of the Go runtime",
            "ocaml/walker/driver.ml: observation relation between a quiescent state of the real code and Walker.state")
 
 
-def race_demo(out, tier, findings):
-    """What cmds/build.go does with the map Walk returns after fail-fast / an interrupt, on the real code."""
+def race_demo(out, tier, findings, race=False):
+    """What cmds/build.go does with the map Walk returns after fail-fast / an interrupt, on the real code: GetErrors,
+    TargetSuccessCount and a range over it, at once and without any lock, while node routines that Walk did not wait for are
+    still completing.  Oracles: no runtime abort, the returned map never grows after the return, and (race=True: binary built
+    with -race) no DATA RACE report."""
     try:
-        h = vlib.build_harness("walker", deps=())
+        h = vlib.build_harness("walker", deps=(), race=race)
     except vlib.HarnessUnavailable:
         return {"available": False}
-    res = {"available": True}
+    res = {"available": True, "race_detector": race}
+    F1 = "completions-written-after-return"
     for mode in ("ff", "cancel"):
-        runs = 3000 if tier == "quick" else 30000
+        runs = (300 if race else 3000) if tier == "quick" else (3000 if race else 30000)
         try:
-            p = subprocess.run([h, "race", mode, str(runs)], stdout=subprocess.PIPE, stderr=subprocess.PIPE, text=True, timeout=120)
+            p = subprocess.run([h, "race", mode, str(runs)], stdout=subprocess.PIPE, stderr=subprocess.PIPE, text=True, timeout=600)
         except subprocess.TimeoutExpired:
             res[mode] = "timeout"
+            out.violation("walker harness 'race %s %d' did not return within 600 s" % (mode, runs), {"cmd": "walker harness race %s %d" % (mode, runs)})
             continue
         fatal = [l for l in p.stderr.split("\n") if l.startswith("fatal error:")]
         res[mode] = fatal[0] if fatal else p.stdout.strip()
+        cmd = {"cmd": "walker harness%s race %s %d" % (" (-race build)" if race else "", mode, runs), "stderr": p.stderr[:3000]}
+        if not fatal and "DATA RACE" in p.stderr:
+            # class guard: the two sides are onComplete's write of the completions map and the caller's read of the returned map
+            in_class = "onComplete" in p.stderr and ("CompletionMap" in p.stderr or "raceRuns" in p.stderr)
+            res[mode] = "DATA RACE"
+            if in_class and F1 in findings:
+                out.known(findings[F1]["id"], "race detector: onComplete writes the map Walk returned while the caller reads it as cmds/build.go does (%s mode)" % mode)
+            else:
+                out.violation("race detector report while the caller reads the map Walk returned (%s mode): %s" % (
+                    mode, " ".join(x.strip() for x in p.stderr.split("\n") if "onComplete" in x or "CompletionMap" in x or "raceRuns" in x)[:200]), cmd)
+        elif not fatal and p.returncode != 0:
+            out.violation("walker harness race %s exited with status %d: %s" % (mode, p.returncode, p.stderr[-200:].replace("\n", " ")), cmd)
+        elif not fatal:
+            m = [x for x in p.stdout.split() if x.startswith("maps_written_after_return=")]
+            grown = int(m[0].split("=")[1]) if m else -1
+            if grown > 0 and F1 in findings:
+                out.known(findings[F1]["id"], "the map Walk returned grew after the return in %d of %d walks (%s mode) while the caller was reading it" % (grown, runs, mode))
+            elif grown > 0:
+                out.violation("the map Walk returned grew after the return in %d of %d walks (%s mode): node routines write the map the caller reads without a lock" % (
+                    grown, runs, mode), cmd)
+            elif grown < 0:
+                out.violation("walker harness race %s printed no result: %s" % (mode, p.stdout[:200]), cmd)
         if fatal:
             # class guard evaluated on this failure: a concurrent-map abort whose reader is the caller of Walk
             # (CompletionMap methods / the harness' range) in a walk that ended through ctx.Done
@@ -79,18 +106,21 @@ def e2e_termination(out, tier):
 def run(out, tier):
     findings = {f["class"]: f for f in vlib.known_findings("C04")}
     info, scheds, extra = walkerlib.gated_campaign(out, "C04", tier, "term", race=(tier == "thorough"))
-    # completions written after Walk handed the live map to its caller
-    for s, tr, k, ret_early in extra.get("late", []):
+    # the map Walk handed to its caller is written after the return
+    for s, tr, k, ret_early in extra.get("late", [])[:3]:
         if ret_early and "completions-written-after-return" in findings:
             out.known(findings["completions-written-after-return"]["id"],
-                      "schedule %s: a completion is recorded at step %d, after Walk returned the live map through ctx.Done" % (s["id"], k))
+                      "schedule %s: the map Walk returned through ctx.Done is written at step %d, after the return (a node routine records its completion in it)" % (s["id"], k))
         else:
-            out.violation("schedule %s: a completion is written at step %d after Walk returned%s" % (
-                s["id"], k, "" if ret_early else " although the walk was neither cancelled nor fail-fast-triggered"),
-                {"schedule": s, "trace": [[a, o] for a, o in tr["steps"]]})
+            out.violation("schedule %s: the map Walk returned is written at step %d, after the return%s: the caller reads it without a lock" % (
+                s["id"], k, " through ctx.Done (a node routine that Walk did not wait for records its completion in it)" if ret_early
+                else " although the walk was neither cancelled nor fail-fast-triggered"),
+                {"schedule": s, "trace": [[a, o] for a, o in tr["steps"]], "replay_cmd": "./check C04 --replay <this file>"})
     sinfo = walkerlib.stress_campaign(out, "C04", tier, "term", race=(tier == "thorough"))
     ex = walkerlib.explore_tiny(out)
     rd = race_demo(out, tier, findings)
+    if tier == "thorough":
+        rd = {"plain": rd, "race_detector": race_demo(out, tier, findings, race=True)}
     try:
         import c06
         c06.restore_fault_cases(out, tier)
